@@ -40,6 +40,7 @@ type Scenario struct {
 	Init     []KV           `json:"init"`
 	Clients  []Client       `json:"clients"`
 	Hist     []HistStmt     `json:"hist,omitempty"` // history with intended effects (C11/C12); Clients[0] is derived from it
+	L        *LimitCase     `json:"limit_case,omitempty"` // C08 grid point
 	Faults   []Fault        `json:"faults,omitempty"`
 	Schedule []int          `json:"schedule,omitempty"`
 	Topology string         `json:"topology,omitempty"`
